@@ -47,7 +47,7 @@ func (p *policyState) base() int { return runtime.NumGoroutine() - len(p.clk.Pen
 
 func (p *policyState) drain() {
 	b := p.base()
-	p.clk.Settle = func() { p.quiesce(b) }
+	p.clk.Settle = func() {} // fire everything, then wait once for all sleepers to exit
 	p.clk.Advance(1000000 * time.Second)
 	p.quiesce(b)
 }
@@ -133,6 +133,34 @@ func policyOp(st *caseState, w []string) string {
 			return "other:headers=" + proto.Enc(strings.Join(keys, ","))
 		}
 		return fmt.Sprintf("other:%T", act)
+	case "pbulk":
+		// n fresh sequences <prefix>-<i>, one first response each (background load)
+		p := st.po
+		n, ok1 := kvI(w, "n")
+		pre, ok2 := kvS(w, "prefix")
+		status, ok3 := kvI(w, "status")
+		if p == nil || !ok1 || !ok2 || !ok3 || n < 0 || n > 100000 {
+			return "bad-op"
+		}
+		b := p.base()
+		nr, nn := 0, 0
+		for i := int64(0); i < n; i++ {
+			id := fmt.Sprintf("%s-%d", proto.Dec(pre), i)
+			act, err := p.plugin.OnResponse(lunarMessages.OnResponse{
+				ID: id, SequenceID: id, Status: int(status), Method: "GET",
+				URL: "c17.example.com/x", Headers: map[string]string{},
+			}, p.cfg)
+			if err != nil {
+				return "err:" + proto.Enc(err.Error())
+			}
+			if _, ok := act.(*actions.NoOpAction); ok {
+				nn++
+			} else {
+				nr++
+			}
+		}
+		p.quiesce(b)
+		return fmt.Sprintf("bulk retry=%d noop=%d", nr, nn)
 	case "adv", "jump":
 		p := st.po
 		d, ok := kvI(w, "ns")
